@@ -81,6 +81,7 @@ func faultOpts(prop string, thorough bool) (GenOpts, faultEmphasis) {
 	case "C05":
 		em.ConnPhase = 4
 		em.Timeout = true
+		em.StartHigh = true
 	case "C06":
 		em.ConnPhase = 5
 		em.Timeout = true
@@ -271,6 +272,9 @@ func RunCase(t *testing.T, spec CaseSpec) *CaseResult {
 	if spec.Prop == "C08" {
 		sc.Scribble = false
 		sc.LateScribble = true
+		if tape.S("cfg").Chance(1, 8) {
+			sc.ValuesOnly, sc.LateScribble = true, false
+		}
 	}
 	r := Execute(t, sc, tape)
 	res.Runs = append(res.Runs, r)
